@@ -401,6 +401,8 @@ def run(ctx):
     traces = check_scenarios(ctx, scs)
     for i in (1, len(scs) // 2):
         ctx.sample(dict(acts=[{k: v for k, v in e.items() if k != "obs"} for e in traces[i]["acts"]], last_projection=traces[i]["acts"][-1]["obs"]))
+    from harness.props import x_naming
+    x_naming.check_naming(ctx)      # extension: node naming / default model / references / context bookkeeping (E: clauses, drift only)
 
 
 def replay(ctx, scenario):
